@@ -88,7 +88,7 @@ func c02Specs(tier string, seed int) []c02Spec {
 	}
 	for _, lw := range lwSpecs(tier, seed, false) {
 		lw := lw
-		if len(soilCat[lwDefs()[lw.World].soil]) > 0 && soilN(lwDefs()[lw.World].soil) >= 2 {
+		if len(soilCat[lwDefs()[lw.World].soil]) > 0 && soilN(lwDefs()[lw.World].soil) >= 2 && !lwDefs()[lw.World].leachAbove {
 			out = append(out, c02Spec{Long: &lw})
 		}
 	}
